@@ -1547,7 +1547,8 @@ def check_c08(opts, res):
     if not an.ok or an.unspecified:
         return []
     _check_uranges(an)
-    return _of(an, "C08")
+    # tokens lost from (or invented in) the low-priority output are a loss of the token stream as well as a partition defect (C17)
+    return _of(an, "C08") + [p for p in an.problems if p["prop"] == "C17" and p["classification"].startswith(("token-dropped", "token-extra", "host-wrapper-chain-differs"))]
 
 
 def check_c09(opts, res):
